@@ -170,6 +170,40 @@ def rewrite_fn(item, in_trait_impl, log):
                 j += 1
             b = toks[sigidx[j]]
             edits.append((b.s, b.s, "\n"))
+            if t.text == "for":
+                # R12: `for PAT in A..=B` / `for PAT in (A..=B).rev()` (vstd has no iteration model for RangeInclusive)
+                # -> equivalent `while` loop over an explicit counter; only when the body has no `continue`
+                kin = None
+                jj = n + 1
+                while jj < j:
+                    tt = toks[sigidx[jj]]
+                    if tt.kind == "punct" and tt.text in ("(", "["):
+                        jj = pos[match_forward(toks, sigidx[jj])] + 1; continue
+                    if tt.kind == "ident" and tt.text == "in": kin = jj; break
+                    jj += 1
+                if kin is not None:
+                    pat = text[t.e:toks[sigidx[kin]].s].strip()
+                    expr = text[toks[sigidx[kin]].e:b.s].strip()
+                    bclose = match_forward(toks, sigidx[j])
+                    body_has_continue = any(toks[q].kind == "ident" and toks[q].text == "continue" for q in range(sigidx[j], bclose))
+                    md = re.match(r"^\(\s*(.+?)\s*\.\.=\s*(.+?)\s*\)\s*\.\s*rev\s*\(\s*\)$", expr, re.S)
+                    ma = None if md else re.match(r"^([^()]+?|\(.*\)|.+?)\s*\.\.=\s*(.+)$", expr, re.S)
+                    if ma and re.search(r"\.\s*(rev|step_by|map|zip|filter|enumerate)\s*\(", expr): ma = None
+                    if (md or ma) and not body_has_continue:
+                        k12 = tmpn[0]; tmpn[0] += 1
+                        if md:
+                            lo, hi = md.group(1), md.group(2)
+                            head = "{ let lo__%d = %s; let mut it__%d = %s; let mut more__%d = lo__%d <= it__%d;\nwhile more__%d" % (k12, lo, k12, hi, k12, k12, k12, k12)
+                            step = "\nif it__%d == lo__%d { more__%d = false; } else { it__%d -= 1; }\n" % (k12, k12, k12, k12)
+                        else:
+                            lo, hi = ma.group(1), ma.group(2)
+                            head = "{ let hi__%d = %s; let mut it__%d = %s; let mut more__%d = it__%d <= hi__%d;\nwhile more__%d" % (k12, hi, k12, lo, k12, k12, k12, k12)
+                            step = "\nif it__%d == hi__%d { more__%d = false; } else { it__%d += 1; }\n" % (k12, k12, k12, k12)
+                        edits.append((t.s, b.s, head))
+                        edits.append((b.e, b.e, "\nlet %s = it__%d;" % (pat, k12)))
+                        edits.append((toks[bclose].s, toks[bclose].s, step))
+                        edits.append((toks[bclose].e, toks[bclose].e, " }"))
+                        log.add("R12")
         if t.kind == "punct" and t.text == "(":
             prev = toks[sigidx[n-1]] if n > 0 else None
             if prev is not None and prev.kind == "punct" and prev.text in (";", "{", "}"):
